@@ -31,6 +31,14 @@ CHECKS = {
          "One open known finding (Expression.conditional with bound variables / subscripts).",
          TRUST + "; algebraic and fold laws instantiated per path (listed in y0vc/exprs.py LAWS); termination of Fraction.simplify's recursion not verified",
          TECH + " (QF_UFNRA, ground-instantiated laws) + bounded run-time contracts with exact evaluation", "DESIGN.md §5 C13"),
+ "C10": ("other", "Proved for all expressions, orderings, distributions and value assignments: Canonicalizer.canonicalize returns an expression with the same denotation "
+         "wherever the input is defined (structural induction through its own contract: 17 paths; Fraction, Product, Sum, leaf branches), and fails only with TypeError on "
+         "expressions containing a Q factor or ZeroDivisionError on undefined ones. The proof is relative to assumed leaf contracts, which are checked only by the bounded "
+         "stand-in (sampled concrete expressions, exact rational evaluation): Sum.safe/Sum.simplify (marginalising a joint), _canonicalize_probability (a probability term "
+         "denotes a function of its child and parent sets), _flatten_product (recursive generator), and the entry points canonicalize(e, ordering) and canonical_expr_equal "
+         "(constructor of Canonicalizer / ensure_ordering use dict and enumerate code outside the subset).",
+         TRUST + "; laws of y0vc/exprs.py LAWS incl. the sum-congruence rule (a callee contract proved for an arbitrary environment holds at every summation point)",
+         TECH + " (QF_UFNRA, structural induction via the function's own contract) + bounded run-time contracts with exact evaluation", "DESIGN.md §5 C10"),
 }
 NA = {
 }
